@@ -189,6 +189,9 @@ pub enum Expr {
     Tuple(Vec<Expr>),
     Chain(Vec<Expr>),
     Assign(AOp, String, Box<Expr>),
+    /// assignment whose target is computed: `<target expr> op= <rhs>` (the target must evaluate
+    /// to a string naming the variable)
+    AssignTo(AOp, Box<Expr>, Box<Expr>),
 }
 
 impl Expr {
@@ -215,6 +218,7 @@ impl Expr {
             Expr::Bin(_, a, b) => a.size() + b.size(),
             Expr::Tuple(v) | Expr::Chain(v) => v.iter().map(|e| e.size()).sum(),
             Expr::Assign(_, _, e) => e.size(),
+            Expr::AssignTo(_, t, e) => t.size() + e.size(),
         }
     }
 
@@ -226,12 +230,13 @@ impl Expr {
             Expr::Bin(_, a, b) => a.depth().max(b.depth()),
             Expr::Tuple(v) | Expr::Chain(v) => v.iter().map(|e| e.depth()).max().unwrap_or(0),
             Expr::Assign(_, _, e) => e.depth(),
+            Expr::AssignTo(_, t, e) => t.depth().max(e.depth()),
         }
     }
 
     pub fn has_assignment(&self) -> bool {
         match self {
-            Expr::Assign(..) => true,
+            Expr::Assign(..) | Expr::AssignTo(..) => true,
             Expr::Lit(_) | Expr::Read(_) => false,
             Expr::Call(_, a) => a.as_ref().map(|a| a.has_assignment()).unwrap_or(false),
             Expr::Un(_, a) => a.has_assignment(),
@@ -247,7 +252,7 @@ impl Expr {
         let mut s = String::new();
         match self {
             Expr::Chain(v) => render_seq(v, "; ", &mut s),
-            Expr::Assign(..) => self.render_bare(&mut s),
+            Expr::Assign(..) | Expr::AssignTo(..) => self.render_bare(&mut s),
             _ => self.render_bare(&mut s),
         }
         s
@@ -306,6 +311,13 @@ impl Expr {
             },
             Expr::Assign(op, n, e) => {
                 out.push_str(n);
+                out.push(' ');
+                out.push_str(op.sym());
+                out.push(' ');
+                e.render_operand(out);
+            },
+            Expr::AssignTo(op, t, e) => {
+                t.render_operand(out);
                 out.push(' ');
                 out.push_str(op.sym());
                 out.push(' ');
@@ -390,6 +402,10 @@ impl Expr {
                     e.assemble_operand(wrap),
                 ],
             ),
+            Expr::AssignTo(op, t, e) => mk(
+                op.operator(),
+                vec![t.assemble_operand(wrap), e.assemble_operand(wrap)],
+            ),
         }
     }
 
@@ -418,6 +434,10 @@ impl Expr {
             Expr::Assign(op, n, e) => Json::obj()
                 .with("assign", Json::s(op.sym()))
                 .with("name", Json::s(n.clone()))
+                .with("rhs", e.to_json()),
+            Expr::AssignTo(op, t, e) => Json::obj()
+                .with("assign_to", Json::s(op.sym()))
+                .with("target", t.to_json())
                 .with("rhs", e.to_json()),
         }
     }
@@ -471,6 +491,15 @@ impl Expr {
                 Box::new(Expr::from_json(j.field("rhs")?)?),
             ));
         }
+        if let Some(op) = j.get("assign_to") {
+            let op = AOp::from_sym(op.as_str().ok_or("bad assign_to")?)
+                .ok_or("unknown assignment operator")?;
+            return Ok(Expr::AssignTo(
+                op,
+                Box::new(Expr::from_json(j.field("target")?)?),
+                Box::new(Expr::from_json(j.field("rhs")?)?),
+            ));
+        }
         Err(format!("unrecognised expression {}", j.to_compact()))
     }
 
@@ -518,6 +547,11 @@ impl Expr {
             Expr::Assign(op, n, e) if *op != AOp::Assign => {
                 out.push(Expr::Assign(AOp::Assign, n.clone(), e.clone()))
             },
+            Expr::AssignTo(op, _, e) => {
+                for n in ["a", "b", "c"] {
+                    out.push(Expr::Assign(*op, n.to_string(), e.clone()));
+                }
+            },
             _ => {},
         }
         // 3. recurse: shrink one child in place
@@ -539,6 +573,7 @@ impl Expr {
             Expr::Bin(_, a, b) => vec![a, b],
             Expr::Tuple(v) | Expr::Chain(v) => v.iter().collect(),
             Expr::Assign(_, _, e) => vec![e],
+            Expr::AssignTo(_, t, e) => vec![t, e],
         }
     }
 
@@ -565,6 +600,13 @@ impl Expr {
                 Expr::Chain(w)
             },
             Expr::Assign(op, n, _) => Expr::Assign(*op, n.clone(), Box::new(c)),
+            Expr::AssignTo(op, t, e) => {
+                if i == 0 {
+                    Expr::AssignTo(*op, Box::new(c), e.clone())
+                } else {
+                    Expr::AssignTo(*op, t.clone(), Box::new(c))
+                }
+            },
         }
     }
 }
@@ -601,7 +643,7 @@ fn render_seq(v: &[Expr], sep: &str, out: &mut String) {
         match e {
             // assignments are fine bare as sequence elements; other compound elements of a
             // sequence are rendered as operands (parenthesised)
-            Expr::Assign(..) => e.render_bare(out),
+            Expr::Assign(..) | Expr::AssignTo(..) => e.render_bare(out),
             _ => e.render_operand(out),
         }
     }
@@ -689,6 +731,10 @@ impl Expr {
             Expr::Bin(_, a, b) => a.is_renderable() && b.is_renderable(),
             Expr::Tuple(v) | Expr::Chain(v) => v.len() >= 2 && v.iter().all(|e| e.is_renderable()),
             Expr::Assign(_, _, e) => e.is_renderable(),
+            // a bare identifier before `=` would be read as the variable itself
+            Expr::AssignTo(_, t, e) => {
+                !matches!(**t, Expr::Read(_)) && t.is_renderable() && e.is_renderable()
+            },
         }
     }
 }
